@@ -23,6 +23,7 @@ from __future__ import annotations
 
 import json
 import random
+import zlib
 from fractions import Fraction
 
 from .. import labelkit as lk
@@ -139,15 +140,32 @@ def observe(scn: dict) -> dict:
 
     b = lk.norm_b(scn["b"])
     base = lk.build_base(b, random.Random(len(json.dumps(scn["b"]))))
+    for k, v in fn_to_dict(scn.get("extra_concs", {})).items():
+        base.add_variable(k, int(v))                 # unlabelled bystanders of the base model (no reaction touches them)
     pool = {k: int(v) for k, v in fn_to_dict(scn["pool"]).items()}
     flux = {k: int(v) for k, v in fn_to_dict(scn["flux"]).items()}
     obs: dict = {"base_flux": {k: float(v) for k, v in base.get_fluxes().to_dict().items()},
                  "base_rhs": {k: float(v) for k, v in base.get_right_hand_side().to_dict().items()}}
     lv, lmaps = lk.label_variables(b), lk.label_maps(b)
+    # `concs` is the FULL steady state of the base model: it also holds the bystander variables the specification names
+    # (extra_concs: among them an unlabelled compound literally called EXT); integral numbers are handed over as a
+    # float64, an int64 or an object (Python int) Series - a rendering choice seeded by the case, the number is the same
+    extra = {k: int(v) for k, v in fn_to_dict(scn.get("extra_concs", {})).items()}
+    full_pool = {**pool, **extra}
+    style = zlib.crc32(case_key(scn).encode()) % 3
+
+    def ser(d: dict):
+        if style == 0:
+            return pd.Series(d, dtype=float)
+        if style == 1:
+            return pd.Series({k: int(v) for k, v in d.items()}, dtype="int64")
+        return pd.Series({k: int(v) for k, v in d.items()}, dtype=object)
+
+    obs["series_style"] = ("float64", "int64", "object")[style]
     # the isotopomer model built from the same label counts and the same maps
     try:
         iso = LabelMapper(base, label_variables=lv, label_maps=lmaps).build_model()
-        y = {k: float(v) for k, v in fn_to_dict(scn["y"]).items()}
+        y = {k: float(v) for k, v in fn_to_dict(scn["y"]).items()} | {k: float(v) for k, v in fn_to_dict(scn.get("extra_concs", {})).items()}
         dy = {k: float(v) for k, v in iso.get_right_hand_side(y).to_dict().items()}
         obs["iso_rates"] = position_rates_from_isotopomer_model(b, dy, pool)
     except Exception as e:  # noqa: BLE001
@@ -159,7 +177,7 @@ def observe(scn: dict) -> dict:
         try:
             x = lk.frac(ev["x"])
             if x not in built:
-                built[x] = mapper.build_model(concs=pd.Series(pool, dtype=float), fluxes=pd.Series(flux, dtype=float),
+                built[x] = mapper.build_model(concs=ser(full_pool), fluxes=ser(flux),
                                               external_label=float(x))
             m = built[x]
             e = {k: float(lk.frac(v)) for k, v in fn_to_dict(ev["e"]).items()}
@@ -172,7 +190,7 @@ def observe(scn: dict) -> dict:
     for ev in scn.get("unit_evals", []):
         try:
             u = 2.0 ** -int(ev["unit"])
-            m = mapper.build_model(concs=pd.Series({k: v * u for k, v in pool.items()}, dtype=float),
+            m = mapper.build_model(concs=pd.Series({k: v * u for k, v in full_pool.items()}, dtype=float),
                                    fluxes=pd.Series({k: v * u for k, v in flux.items()}, dtype=float),
                                    external_label=float(lk.frac(ev["x"])))
             e = {k: float(lk.frac(v)) for k, v in fn_to_dict(ev["e"]).items()}
@@ -184,7 +202,7 @@ def observe(scn: dict) -> dict:
     for h in scn.get("hist", []):
         steps = []
         try:
-            m = mapper.build_model(concs=pd.Series(pool, dtype=float), fluxes=pd.Series(flux, dtype=float),
+            m = mapper.build_model(concs=ser(full_pool), fluxes=ser(flux),
                                    external_label=float(lk.frac(h["x0"])))
             for st in h["steps"]:
                 m.update_parameter("EXT", float(lk.frac(st["x"])))
@@ -201,7 +219,7 @@ def observe(scn: dict) -> dict:
         m = None
         for st in scn.get("pool_hist", []):
             if m is None:
-                m = mapper.build_model(concs=pd.Series(pool, dtype=float), fluxes=pd.Series(flux, dtype=float),
+                m = mapper.build_model(concs=ser(full_pool), fluxes=ser(flux),
                                        external_label=float(lk.frac(st["x"])))
             else:
                 m.update_parameters({k: float(v) * int(st["mul_pool"]) for k, v in pool.items()}
@@ -218,12 +236,12 @@ def observe(scn: dict) -> dict:
             b2 = lk.norm_b(ss["b2"])
             for r2 in b2["rxns"]:
                 base.update_reaction(r2["name"], stoichiometry=lk.stoichiometry(r2, None))
-            m2 = mapper.build_model(concs=pd.Series(pool, dtype=float), fluxes=pd.Series(flux, dtype=float),
+            m2 = mapper.build_model(concs=ser(full_pool), fluxes=ser(flux),
                                     external_label=float(lk.frac(ss["x"])))
             e = {k: float(lk.frac(v)) for k, v in fn_to_dict(ss["e"]).items()}
             o = {"de": {k: float(v) for k, v in m2.get_right_hand_side(e).to_dict().items()}}
             iso2 = LabelMapper(base, label_variables=lv, label_maps=lmaps).build_model()
-            y = {k: float(v) for k, v in fn_to_dict(scn["y"]).items()}
+            y = {k: float(v) for k, v in fn_to_dict(scn["y"]).items()} | {k: float(v) for k, v in extra.items()}
             dy2 = {k: float(v) for k, v in iso2.get_right_hand_side(y).to_dict().items()}
             o["iso"] = position_rates_from_isotopomer_model(b2, dy2, pool)
             obs["sess"].append(o)
@@ -649,7 +667,7 @@ def run(ctx: Ctx) -> int:
         if bad is None:
             agree_inv += 1 if scn["involutive"] else 0
         else:
-            slim = {k: scn[k] for k in ("tpl", "ord", "b", "dk", "pool", "flux", "y", "involutive", "evals", "hist", "unit_evals", "pool_hist", "sess")}
+            slim = {k: scn[k] for k in ("tpl", "ord", "b", "dk", "pool", "flux", "y", "involutive", "evals", "hist", "unit_evals", "pool_hist", "sess", "extra_concs")}
             rep.mismatch(slim, bad, classify(scn, bad))
     rep.notes["involutive_cases_conforming"] = agree_inv
     for s in [x for x in scns if x["involutive"] and nontrivial(x)][:: max(1, n_inv // 3)][:3]:
